@@ -1,7 +1,7 @@
 (* Props/C20.v — generators and aggregating constructors build what they advertise.
    Only statements, `exact`, Print Assumptions, and concrete Examples (non-vacuity). *)
 From Coq Require Import List Arith ZArith Bool QArith Qcanon Sorting.Sorted.
-From PV Require Import Base.Index Base.Sum Np.Array Model.Sparse Model.Repr Model.Harness Model.C20Gen Model.C20Harness Proofs.C20Proofs Proofs.C20Teneye.
+From PV Require Import Base.Index Base.Sum Base.Perm Np.Array Model.Sparse Model.Repr Model.Harness Model.C20Gen Model.C20Harness Proofs.C20Proofs Proofs.C20Teneye Proofs.C20TeneyeGen Proofs.C20Guards.
 Import ListNotations.
 Local Open Scope nat_scope.
 
@@ -141,6 +141,59 @@ Print Assumptions C20_sprand_post.
 Print Assumptions C20_sprand_count.
 Print Assumptions C20_seeded_first_draw.
 
+(* ---------------------------------------------------------------- value ranges: the draw is an input *)
+(* tenrand / tensor.from_function: every stored value and every entry of the tensor is a value the function returned
+   (tenrand: the uniform draws), so whatever predicate holds of the draws — 0 <= u < 1 — holds of the tensor *)
+Theorem C20_from_function_values : forall (V : Type) (v0 : V) (P : V -> Prop) (s : shape) (out T : dense V),
+  wf_dense out -> from_function v0 s out = Some T -> Forall P (ddata out) ->
+  Forall P (ddata T) /\ (forall i, inb s i = true -> P (den_dense v0 T i)).
+Proof. exact (@from_function_values). Qed.
+
+(* sptenrand / sptensor.from_function: the stored values are the supplied function's output verbatim; the entry at the
+   k-th stored subscript is the k-th value; every entry satisfies any predicate that holds of zero and of the output *)
+Theorem C20_sprand_values : forall (V : Type) (v0 : V) (nz : nat) (s : shape) (draws : list (list (list Z))) (vals : list V),
+  length vals = length (sprand_subs nz s draws) ->
+  svals (sprand nz s draws vals) = vals /\
+  (forall k, k < length vals ->
+     den_sp v0 (sprand nz s draws vals) (nth k (sprand_subs nz s draws) []) = nth k vals v0) /\
+  (forall P : V -> Prop, P v0 -> Forall P vals -> forall i, P (den_sp v0 (sprand nz s draws vals) i)).
+Proof. exact (@sprand_values). Qed.
+Print Assumptions C20_from_function_values.
+Print Assumptions C20_sprand_values.
+
+(* ---------------------------------------------------------------- ill-formed requests *)
+(* tenones / tenzeros (tenrand and tensor.from_function share the path): rejected EXACTLY WHEN the shape is empty or
+   holds a negative size; otherwise the generator's result for the shape *)
+Theorem C20_dense_generator_guard : forall s : list Z,
+  (ztenones_chk s = None <-> s = [] \/ Exists (fun d => (d < 0)%Z) s) /\
+  (dense_gen_guard s = true -> exists T, ztenones_chk s = Some T /\ dshape T = to_shape s /\
+      ddata T = repeat 1%Z (size (to_shape s))) /\
+  (ztenzeros_chk s = None <-> s = [] \/ Exists (fun d => (d < 0)%Z) s) /\
+  (dense_gen_guard s = true -> exists T, ztenzeros_chk s = Some T /\ dshape T = to_shape s /\
+      ddata T = repeat 0%Z (size (to_shape s))).
+Proof. exact tenones_chk_spec. Qed.
+
+(* teneye(ndims, size): accepted EXACTLY WHEN the order is positive and even and the size is not negative *)
+Theorem C20_teneye_guard : forall m n : Z, teneye_guard m n = true <-> ((0 < m)%Z /\ Z.even m = true /\ (0 <= n)%Z).
+Proof. exact teneye_guard_spec. Qed.
+
+(* tendiag / sptendiag never reject a shape for its sizes: pyttb's max(N, dim) on integers raises negative and zero
+   sizes to N — the same shape as the rule gives for the sizes clamped at zero *)
+Theorem C20_diag_negative_sizes : forall (e : list Z) (s : list Z),
+  dshape (ztendiag_z e (Some s)) = pyttb_diag_shape (length e) s /\
+  sshape (zsptendiag_z e (Some s)) = pyttb_diag_shape (length e) s /\
+  Forall (fun d => length e <= d) (pyttb_diag_shape (length e) s).
+Proof. exact diag_z_shape. Qed.
+(* sptendiag with a shape: rejected (by the sptensor constructor: sizes must be positive) EXACTLY WHEN there is no
+   element and the requested shape holds a non-positive size *)
+Theorem C20_sptendiag_guard : forall (e s : list Z),
+  zsptendiag_chk e s = None <-> (e = [] /\ Exists (fun d => (d <= 0)%Z) s).
+Proof. exact sptendiag_chk_spec. Qed.
+Print Assumptions C20_sptendiag_guard.
+Print Assumptions C20_dense_generator_guard.
+Print Assumptions C20_teneye_guard.
+Print Assumptions C20_diag_negative_sizes.
+
 (* ---------------------------------------------------------------- stored order *)
 (* the stored subscripts of from_aggregator's result and of the random sparse generators ascend STRICTLY in
    lexicographic order (first mode most significant) — whatever the input order / the draws: the stored order is a
@@ -158,15 +211,48 @@ Print Assumptions C20_stored_order.
 Theorem C20_requested_count_refuted : ~ requested_count_stmt.
 Proof. exact requested_count_refuted. Qed.
 
-(* sptenrand(density): the count the code derives differs from floor(size*density) when size*density < 1 (C20-N1,
-   re-read as a density) and when density = 1 (C20-N3, rejected); on the rest of the range they coincide *)
-Theorem C20_density_count_refuted : ~ density_count_stmt.
-Proof. exact density_count_refuted. Qed.
-
-Theorem C20_density_count_partial : forall (total : nat) (p : Z) (q : positive),
-  (Zpos q <= Z.of_nat total * p)%Z -> (0 < p < Zpos q)%Z ->
+(* sptenrand(density = p/q) after the repair of C20-N1: the count handed to the generator IS floor(prod(shape) * density)
+   for every density in (0,1) and every non-empty shape (a count of zero included: the empty tensor, repair C20-N2) *)
+Theorem C20_density_count : forall (total : nat) (p : Z) (q : positive),
+  0 < total -> (0 < p < Zpos q)%Z ->
   sptenrand_count_impl total p q = Some (sptenrand_count_spec total p q).
-Proof. exact density_count_partial. Qed.
+Proof. exact density_count. Qed.
+
+(* the guard of sptenrand: a density outside (0,1] is rejected; density = 1 passes the guard, the property admits it
+   (all prod(shape) entries) but from_function rejects it (open finding C20-N3) *)
+Theorem C20_density_guard : forall (total : nat) (p : Z) (q : positive),
+  ((p <= 0)%Z \/ (Zpos q < p)%Z -> sptenrand_count_impl total p q = None /\ sptenrand_request_spec total p q = None) /\
+  (p = Zpos q -> sptenrand_count_impl total p q = None /\ sptenrand_request_spec total p q = Some total).
+Proof. exact density_guard. Qed.
+
+(* sptensor.from_function's reading of a request p/q as an exact rational (t = prod(shape)):
+   rejected iff p/q < 0 or p/q >= t;  0 <= p/q < 1 is a density -> ceil(t * p/q) in [0, t], positive iff p > 0;
+   1 <= p/q < t is a count -> floor(p/q) in [1, t) *)
+Theorem C20_norm_request : forall (total : nat) (p : Z) (q : positive),
+  let t := Z.of_nat total in
+  ((p < 0)%Z \/ (t * Zpos q <= p)%Z -> norm_request total p q = None) /\
+  ((0 <= p < Zpos q)%Z -> (p < t * Zpos q)%Z ->
+     exists c, norm_request total p q = Some c /\ Z.of_nat c = zceil (t * p) q /\
+               (Zpos q * (Z.of_nat c - 1) < t * p <= Zpos q * Z.of_nat c)%Z /\ c <= total /\ (0 < c <-> (0 < p)%Z)) /\
+  ((Zpos q <= p < t * Zpos q)%Z ->
+     exists c, norm_request total p q = Some c /\ Z.of_nat c = (p / Zpos q)%Z /\
+               (Zpos q * Z.of_nat c <= p < Zpos q * (Z.of_nat c + 1))%Z /\ 1 <= c < total).
+Proof. exact norm_request_cases. Qed.
+
+(* the code reads every request as the property does, except a request EQUAL to the tensor size (C20-N3, open) *)
+Theorem C20_norm_request_vs_spec : forall (total : nat) (p : Z) (q : positive),
+  (p <> Z.of_nat total * Zpos q -> norm_request total p q = norm_request_spec total p q)%Z /\
+  norm_request total (Z.of_nat total * Zpos q) q = None /\
+  norm_request_spec total (Z.of_nat total * Zpos q) q = Some (if total =? 0 then 0 else total).
+Proof. exact (fun total p q => conj (norm_request_eq_spec total p q) (norm_request_at_size total q)). Qed.
+
+(* FLOAT CAVEAT: pyttb forms prod(shape)*nonzeros resp. prod(shape)*density in double arithmetic. The faithful models
+   take the rounded product rn/rd as an input; whenever that product is exact they are the exact-rational models above *)
+Theorem C20_request_float_product : forall (total : nat) (p : Z) (q : positive) (rn : Z) (rd : positive),
+  (rn * Zpos q = Z.of_nat total * p * Zpos rd)%Z ->
+  norm_request_fl total p q rn rd = norm_request total p q /\
+  sptenrand_count_fl total p q rn rd = sptenrand_count_impl total p q.
+Proof. exact (fun total p q rn rd H => conj (norm_request_fl_exact total p q rn rd H) (sptenrand_count_fl_exact total p q rn rd H)). Qed.
 
 (* the guards of from_aggregator: accepted exactly when the counts agree and every subscript fits the (given or
    inferred) shape *)
@@ -178,8 +264,11 @@ Theorem C20_aggregator_guard : forall (V : Type) (isz : V -> bool) so N subs (va
 Proof. exact (fun V isz so N subs vals f => conj (agg_guard_accept isz so N subs vals f) (agg_guard_reject isz so N subs vals f)). Qed.
 
 Print Assumptions C20_requested_count_refuted.
-Print Assumptions C20_density_count_refuted.
-Print Assumptions C20_density_count_partial.
+Print Assumptions C20_density_count.
+Print Assumptions C20_density_guard.
+Print Assumptions C20_norm_request.
+Print Assumptions C20_norm_request_vs_spec.
+Print Assumptions C20_request_float_product.
 Print Assumptions C20_aggregator_guard.
 
 (* ---------------------------------------------------------------- teneye *)
@@ -188,18 +277,47 @@ Theorem C20_teneye_order2 : forall a b : nat, teneye_count [a; b] = if Nat.eqb a
 Proof. exact teneye_count_2. Qed.
 Print Assumptions C20_teneye_order2.
 
-(* the identity action for every even order: STATED, not proved (correspondence-only: checked on pyttb's output for
-   (order,size) in {2}x{1..4}, {4}x{1..3}, {6}x{2} with rational x) *)
+(* order 4: the entry numerators are 8 * (number of the three pairings {ab|cd}, {ac|bd}, {ad|bc} whose pairs are equal) *)
+Theorem C20_teneye_order4 : forall a b c d : nat, teneye_count [a; b; c; d] =
+  8 * ((if a =? b then 1 else 0) * (if c =? d then 1 else 0) +
+       (if a =? c then 1 else 0) * (if b =? d then 1 else 0) +
+       (if a =? d then 1 else 0) * (if b =? c then 1 else 0)).
+Proof. exact teneye_count_4. Qed.
+Print Assumptions C20_teneye_order4.
+
+(* the statement of the identity action, for every even order m >= 2, every size n, every vector x (not only unit
+   vectors): ttsv(I, x) = ||x||^(m-2) x, I = the tensor with the entries teneye_count i / m! that teneye computes *)
 Definition C20_teneye_identity_stmt : Prop :=
   forall (m n : nat) (x : list Qc), Nat.even m = true -> 2 <= m -> length x = n ->
   forall a, a < n ->
   ttsv1 (tabulate (repeat n m) (teneye_entry m)) m n x a = (qpow (qdot x) (m / 2 - 1) * nth a x q0)%Qc.
 
-(* ... proved for order 2 (partial): ttsv(I, x) = x for EVERY vector x of any length *)
-Theorem C20_teneye_identity_order2_partial : forall (n : nat) (x : list Qc) (a : nat), length x = n -> a < n ->
+(* ... PROVED for every even order (reduction: sum over the m! rearrangements, re-indexing of the subscript sum by each
+   position permutation, factorisation of the matched sum into m/2 dot products, one of which holds the free index) *)
+Theorem C20_teneye_identity : C20_teneye_identity_stmt.
+Proof. exact teneye_identity_all. Qed.
+Print Assumptions C20_teneye_identity.
+
+(* the reduction lemma in an arbitrary commutative ring: the count-weighted sum over all subscripts equals the sum over
+   the m! position permutations of the product of m/2 dot products of the paired weight vectors *)
+Theorem C20_teneye_reduction :
+  forall (V : Type) (v0 v1 : V) (vadd vmul vsub : V -> V -> V) (vopp : V -> V),
+  ring_theory v0 v1 vadd vmul vsub vopp (@eq V) ->
+  forall (n m : nat) (dY : nat -> V) (Y : list (nat -> V)), Nat.even m = true -> 2 <= m -> length Y = m ->
+  sum_over v0 vadd (allsubs (repeat n m)) (fun i => vmul (ofnat V v0 v1 vadd (teneye_count i)) (W V v1 vmul Y i)) =
+  sum_over v0 vadd (perms (seq 0 m)) (fun sigma => pairdots V v0 v1 vadd vmul n (pick dY (pick 0 (rho m) sigma) Y)).
+Proof. exact teneye_count_sum. Qed.
+Print Assumptions C20_teneye_reduction.
+
+(* corollaries kept by name: orders 2 and 4 *)
+Theorem C20_teneye_identity_order2 : forall (n : nat) (x : list Qc) (a : nat), length x = n -> a < n ->
   ttsv1 (tabulate (repeat n 2) (teneye_entry 2)) 2 n x a = (qpow (qdot x) (2 / 2 - 1) * nth a x q0)%Qc.
 Proof. exact teneye_identity_order2. Qed.
-Print Assumptions C20_teneye_identity_order2_partial.
+Theorem C20_teneye_identity_order4 : forall (n : nat) (x : list Qc) (a : nat), length x = n -> a < n ->
+  ttsv1 (tabulate (repeat n 4) (teneye_entry 4)) 4 n x a = (qpow (qdot x) (4 / 2 - 1) * nth a x q0)%Qc.
+Proof. exact teneye_identity_order4. Qed.
+Print Assumptions C20_teneye_identity_order2.
+Print Assumptions C20_teneye_identity_order4.
 
 (* ---------------------------------------------------------------- non-vacuity: concrete, non-symmetric instances *)
 Example C20_example_from_function :
@@ -232,8 +350,19 @@ Example C20_example_sprand :
   sprand_subs 2 [2; 3] [d1; d2] = [[0; 0]; [1; 1]] /\ sprand_consumed 2 [2; 3] [d1; d2] = 2 /\
   sprand_subs 2 [2; 3] [d2; d1] = [[0; 0]; [1; 1]] /\ sprand_consumed 2 [2; 3] [d2; d1] = 1 /\
   norm_request 6 1 2 = Some 3 /\ norm_request 6 5 1 = Some 5 /\ norm_request 6 6 1 = None /\
-  sptenrand_count_impl 100 1 200 = Some 50 /\ sptenrand_count_spec 100 1 200 = 0.
+  norm_request 6 0 1 = Some 0 /\ norm_request_spec 6 6 1 = Some 6 /\
+  sptenrand_count_impl 100 1 200 = Some 0 /\ sptenrand_count_impl 100 1 4 = Some 25 /\ sptenrand_count_impl 4 1 1 = None /\
+  sptenrand_count_fl 3 1 3 1 1 = Some 1 /\ sptenrand_count_impl 3 1 3 = Some 1 /\
+  norm_request_fl 3 1 3 1 1 = Some 1.
 Proof. vm_compute. repeat split; reflexivity. Qed.
 
 Example C20_example_teneye : map teneye_count [[0; 0; 0; 0]; [0; 0; 1; 1]; [0; 1; 0; 1]; [0; 0; 0; 1]] = [24; 8; 8; 0].
 Proof. vm_compute. reflexivity. Qed.
+
+Example C20_example_teneye_identity :
+  let x := [Q2Qc (1#2); Q2Qc (-3#1)] in
+  ttsv1 (tabulate (repeat 2 4) (teneye_entry 4)) 4 2 x 0 = Q2Qc (37#8) /\
+  ttsv1 (tabulate (repeat 2 4) (teneye_entry 4)) 4 2 x 1 = Q2Qc (-111#4) /\
+  (qpow (qdot x) (4/2-1) * nth 0 x q0)%Qc = Q2Qc (37#8) /\
+  (qpow (qdot x) (4/2-1) * nth 1 x q0)%Qc = Q2Qc (-111#4).
+Proof. exact teneye_identity_example. Qed.
